@@ -168,7 +168,7 @@ type Objects interface {
 	ApprovalTo(commit string) string // "to" id an approval must name (tree, or tag target)
 	Descends(commit, ancestor string) bool
 	CommitSigner(commit string) string // key id that signed the commit object ("" unsigned)
-	TagOK(e Entry) bool                // tag-specific structural conditions (true for branches)
+	TagSigner(tag string) string       // key id that signed the tag object ("" unsigned)
 	NewCommits(commit, since string) []string
 	ChangedPaths(commit string) []string
 	ID(commit string) string
@@ -384,8 +384,17 @@ func (h *History) Authorised(i int, p *Policy, a *AttState) (bool, string) {
 			return false, "delegation-rules-unmet"
 		}
 	}
-	if e.IsTag && !h.Obj.TagOK(e) {
-		return false, "tag-structure"
+	if e.IsTag && len(rules) > 0 {
+		// the tag object itself must be signed by a principal of a consulted rule
+		signed := false
+		for _, r := range rules {
+			if len(owners(p, r, h.Obj.TagSigner(e.Commit))) > 0 {
+				signed = true
+			}
+		}
+		if !signed {
+			return false, "tag-object-not-signed-by-a-rule-principal"
+		}
 	}
 	// global rules
 	for _, g := range p.Global {
